@@ -8,28 +8,32 @@ package k8s
 // Each wrapper takes the mutex, calls the registered callback while holding it, and releases it on every path.
 
 //@ func (*Listener).ServiceHandler
-//@   lockonly
+//@   abstract
 //@   requires l != nil && lockstate(l.Mutex) == 0
 //@   ensures lockstate(l.Mutex) == 0 && lockframe(l.Mutex)
 //@   assert before ServiceChanged: [serialised] lockstate(l.Mutex) == 2
+//@   assert before ServiceChanged: [passedOn] arg1 == serviceName && arg2 == svc && sameSlice(arg3, epSlices)
 //@   modifies $held
 //@ func (*Listener).ConfigHandler
-//@   lockonly
+//@   abstract
 //@   requires l != nil && lockstate(l.Mutex) == 0
 //@   ensures lockstate(l.Mutex) == 0 && lockframe(l.Mutex)
 //@   assert before ConfigChanged: [serialised] lockstate(l.Mutex) == 2
+//@   assert before ConfigChanged: [passedOn] arg1 == config
 //@   modifies $held
 //@ func (*Listener).NodeHandler
-//@   lockonly
+//@   abstract
 //@   requires l != nil && lockstate(l.Mutex) == 0
 //@   ensures lockstate(l.Mutex) == 0 && lockframe(l.Mutex)
 //@   assert before NodeChanged: [serialised] lockstate(l.Mutex) == 2
+//@   assert before NodeChanged: [passedOn] arg1 == node
 //@   modifies $held
 //@ func (*Listener).PoolHandler
-//@   lockonly
+//@   abstract
 //@   requires l != nil && lockstate(l.Mutex) == 0
 //@   ensures lockstate(l.Mutex) == 0 && lockframe(l.Mutex)
 //@   assert before PoolChanged: [serialised] lockstate(l.Mutex) == 2
+//@   assert before PoolChanged: [passedOn] arg1 == pools
 //@   modifies $held
 
 // The reconcilers are handed the locking wrappers (method values of the embedded Listener), never the raw callbacks.
